@@ -70,7 +70,7 @@ package service
 //@   requires receiptIndex >= 0 && forall i int :: 0 <= i && i < len(txs) ==> txs[i] != nil
 //@   loop 0: invariant forall q int :: 0 <= q && q <= rangeidx() ==> txs[q].Hash != txHash
 //@   ensures [found]  result != nil ==> result.Hash == txHash
-//@   ensures [total]  (exists j int :: 0 <= j && j < len(txs) && txs[j].Hash == txHash) ==> result != nil
+//@   ensures [total]  forall j int :: 0 <= j && j < len(txs) && txs[j].Hash == txHash ==> result != nil
 //@   modifies nothing
 
 //@ func TxPool.refreshGateNonce
@@ -105,6 +105,7 @@ package service
 //@   requires [inputs]  (forall i int :: 0 <= i && i < len(receipts) ==> receipts[i] != nil) && (forall i int :: 0 <= i && i < len(txs) ==> txs[i] != nil)
 //@   requires [present] forall i int :: 0 <= i && i < len(receipts) ==> exists j int :: 0 <= j && j < len(txs) && txs[j].Hash == receipts[i].TxHash
 //@   loop 0: invariant fresh(txHashList)
+//@   loop 0: invariant forall i int :: 0 <= i && i < len(receipts) ==> exists j int :: 0 <= j && j < len(txs) && txs[j].Hash == receipts[i].TxHash
 //@   loop 0: invariant forall j int :: 0 <= j && j <= rangeidx() ==> @select(@select(ghost(kvhas), ref(pool.executed)), bytes(receipts[j].TxHash)) || @select(@select(ghost(bpend), ref(pool.batch)), bytes(receipts[j].TxHash))
 //@   loop 0: invariant @select(ghost(bsize), ref(pool.batch)) >= 0 && forall k Bytes :: @select(@select(ghost(bpend), ref(pool.batch)), k) ==> @select(ghost(bsize), ref(pool.batch)) > 0
 //@   loop 0: invariant ghost(btarget) == old(ghost(btarget)) && forall k Bytes :: old(@select(@select(ghost(kvhas), ref(pool.executed)), k)) ==> @select(@select(ghost(kvhas), ref(pool.executed)), k)
